@@ -100,7 +100,10 @@ KANI_UNITS = [
 
 
 # ------------------------------------------------------------------ syntactic frame scans (not counted as proof)
-ALLOWED_CTOR_FNS = {"SafeLong::min_value", "SafeLong::max_value", "SafeLong::new", "macro_rules impl_from"}
+# construction sites inside these items are covered by complete obligations (every instantiation of the macros has its
+# own full-domain harness); anything else is reported as *undecided* (needs a contract), never as a violation
+ALLOWED_CTOR_FNS = {"SafeLong::min_value", "SafeLong::max_value", "SafeLong::new", "macro_rules impl_from", "macro_rules impl_try_from",
+                    "de::Deserialize<'de> for SafeLong::deserialize"}
 
 def scan_constructors(repo):
     """Every expression constructing SafeLong(..) in conjure-object must lie inside a function under contract."""
